@@ -39,7 +39,7 @@ from dsmc.report import HarnessError, Report, pmap
 from dsmc.sched import install_threading_seams
 from dsmc.tables import fresh_dir, row, schema
 
-OPS = ["append", "delete_files", "expire", "delete_snapshot"]
+OPS = ["append", "delete_files", "expire", "delete_snapshot", "reappend"]
 STYLES = ["ctx", "explicit", "convenience"]
 
 
@@ -62,7 +62,16 @@ KINDS_S3 = {
     "applied_then_error_persistent": ("after", lambda: _cerr("RequestTimeout", 400), True),
     "interrupt_before": ("before", lambda: KeyboardInterrupt(), False),
     "interrupt_after": ("after", lambda: KeyboardInterrupt(), False),
+    # a transport-level failure: a botocore error that is NOT a ClientError (and not an OSError)
+    "transport_once": ("before", lambda: _transport_error(), False),
+    "applied_then_transport_error_once": ("after", lambda: _transport_error(), False),
 }
+
+
+def _transport_error() -> BaseException:
+    from botocore.exceptions import EndpointConnectionError
+
+    return EndpointConnectionError(endpoint_url="https://s3.injected.invalid")
 
 
 class Injector:
@@ -252,6 +261,11 @@ class Bench:
                 bench.tx = tx
                 if op == "append":
                     tx.append_data([row(7)])
+                elif op == "reappend":
+                    # a pre-built file that retained snapshots already reference is registered (again) through the
+                    # file-level append API: the transaction did not write it and must never delete it
+                    mine = [d for d in t._get_all_data_files() if d.file_path.lstrip("/") == files[0]]
+                    tx.append_files(mine[:1])
                 elif op == "delete_files":
                     tx.delete_files(["/" + files[0]])
                 elif op == "expire":
@@ -289,6 +303,9 @@ class Bench:
         if op == "append":
             ok = (ids[:-1] == self.pre_ids and len(ids) == len(self.pre_ids) + 1 and st.current_id == ids[-1]
                   and sorted(rows, key=repr) == sorted(self.pre_rows + [r7], key=repr))
+        elif op == "reappend":
+            ok = (ids[:-1] == self.pre_ids and len(ids) == len(self.pre_ids) + 1 and st.current_id == ids[-1]
+                  and rows == self.pre_rows)
         elif op == "delete_files":
             ok = (ids[:-1] == self.pre_ids and len(ids) == len(self.pre_ids) + 1 and st.current_id == ids[-1]
                   and rows == [r for r in self.pre_rows if r != r0])
@@ -429,6 +446,18 @@ def run_group(payload: Dict[str, Any]) -> Dict[str, Any]:
             leftovers = sorted(p for p in inv - b.pre_all if p.startswith("data/") or "/inflight/" in p)
             if outcome[0] == "raise" and state == "pre" and leftovers:
                 rep.add("clean_failures_with_leftover_tx_files_informational")
+            if not problems and backend != "local" and storage_fault and not persistent_any:
+                # the process is alive and the single fault is over: the metadata lock must have been given back,
+                # unless the fault hit the release itself (no later lock / pointer write follows it in this run)
+                lock_key = f"{b.location}/.locks/metadata.lock"
+                if lock_key in b.s3w.s3.objs:
+                    fi = max(inj.fired)
+                    later = [c for c in inj.calls[fi + 1:] if c[0].startswith("PUT") and
+                             (".locks/" in c[1] or c[1].endswith(HINT_NAME))]
+                    at_lock = ".locks/" in inj.calls[fi][1] if 0 <= fi < len(inj.calls) else False
+                    if not at_lock or later:
+                        problems.append("the metadata lock is still held after the operation returned: "
+                                        f"fault at {inj.calls[fi] if 0 <= fi < len(inj.calls) else '?'}")
             if not problems:
                 problems += b.followup()
             okey = (backend, op, style, kname, outcome[0], str(outcome[1]), state)
@@ -664,6 +693,8 @@ def groups(tier: str, seed: int) -> List[Dict[str, Any]]:
                 if op == "delete_snapshot" and style != "explicit":
                     continue
                 if style == "convenience" and op != "append":
+                    continue
+                if op == "reappend" and style != "ctx":
                     continue
                 if tier == "quick" and backend == "s3nocas" and style == "explicit":
                     continue
